@@ -69,4 +69,16 @@ def npSubMask : List Q → List Bool → List Q → List Q
   | s :: ss, true :: m, [] => s :: npSubMask ss m []
   | s :: ss, true :: m, v :: vs => (s - v) :: npSubMask ss m vs
 
+/-- `np.min(a)` / `np.max(a)` (0 for an empty array, which the callers exclude) -/
+def npMin : List Q → Q
+  | [] => 0
+  | x :: xs => xs.foldl (fun a b => if b < a then b else a) x
+def npMax : List Q → Q
+  | [] => 0
+  | x :: xs => xs.foldl (fun a b => if a < b then b else a) x
+/-- `a / s` / `a /= s` with a scalar -/
+def npDivScalar (xs : List Q) (c : Q) : List Q := xs.map (fun x => x / c)
+/-- `np.ones_like(a)` -/
+def npOnesLike (xs : List Q) : List Q := xs.map (fun _ => 1)
+
 end LK.NpOps
